@@ -322,6 +322,8 @@ def _interp_gate(a, expression: str, ctx_names: list[str]):
     def methods(recv, name, args, kwargs):
         if recv is ast and name == 'walk':
             return list(ast.walk(*args))
+        if recv is ast and name in ('iter_child_nodes', 'iter_fields'):
+            return list(getattr(ast, name)(*args))
         return NotImplemented
 
     ev = _Eval(env, calls=calls, methods=methods)
